@@ -201,13 +201,6 @@ Fixpoint replace_node (h : nat) (r : node) (n : node) {struct n} : node :=
                  else ND id c (map (fun kn : key * node => (fst kn, replace_node h r (snd kn))) d)
   end.
 
-Fixpoint node_ids (n : node) : list nat :=
-  match n with
-  | NV _ => []
-  | NL id _ l => id :: flat_map node_ids l
-  | ND id _ d => id :: flat_map (fun kn : key * node => node_ids (snd kn)) d
-  end.
-
 (* ---------- machine state *)
 Record obj := { o_cls : nat; o_rid : nat; o_root : node }.
 Record mstate := {
